@@ -793,20 +793,16 @@ impl<T: Serialize + for<'de> Deserialize<'de> + Clone + PartialEq + Send + Sync 
             ))
         })?;
 
-        // Calculate checksum
-        let mut hasher = Sha256::new();
-        hasher.update(&snapshot_data);
-        let checksum: [u8; 32] = hasher.finalize().into();
-
-        // Create snapshot header
-        let header = SnapshotHeader {
+        // Create snapshot header; the checksum covers the other header fields and the data
+        let mut header = SnapshotHeader {
             version: WAL_VERSION,
             created_at: current_timestamp(),
             last_transaction_id,
             entry_count: current_state.len() as u64,
             total_size: snapshot_data.len() as u64,
-            checksum,
+            checksum: [0u8; 32],
         };
+        header.checksum = Self::snapshot_checksum(&header, &snapshot_data)?;
 
         // Write snapshot to temp file
         {
@@ -1329,6 +1325,12 @@ impl<T: Serialize + for<'de> Deserialize<'de> + Clone + PartialEq + Send + Sync 
         })?;
 
         let header_size = u32::from_le_bytes(size_bytes) as usize;
+        let file_len = file.metadata().map(|m| m.len())?;
+        if header_size as u64 > file_len.saturating_sub(4) {
+            return Err(P2PError::Storage(StorageError::CorruptionDetected(
+                "Snapshot header longer than the file".to_string().into(),
+            )));
+        }
 
         // Read header
         let mut header_data = vec![0u8; header_size];
@@ -1359,12 +1361,25 @@ impl<T: Serialize + for<'de> Deserialize<'de> + Clone + PartialEq + Send + Sync 
             ))
         })?;
 
-        // Checksum of the snapshot data exactly as read from disk
-        let mut hasher = Sha256::new();
-        hasher.update(&snapshot_data);
-        let checksum: [u8; 32] = hasher.finalize().into();
+        // Checksum of the header fields and the snapshot data exactly as read from disk
+        let checksum = Self::snapshot_checksum(&header, &snapshot_data)?;
 
         Ok((header, state, checksum))
+    }
+
+    /// Checksum over the header (with its checksum field zeroed) and the snapshot data
+    fn snapshot_checksum(header: &SnapshotHeader, snapshot_data: &[u8]) -> Result<[u8; 32]> {
+        let mut unsigned_header = header.clone();
+        unsigned_header.checksum = [0u8; 32];
+        let header_data = postcard::to_stdvec(&unsigned_header).map_err(|e| {
+            P2PError::Storage(StorageError::Database(
+                format!("Failed to serialize header: {e}").into(),
+            ))
+        })?;
+        let mut hasher = Sha256::new();
+        hasher.update(&header_data);
+        hasher.update(snapshot_data);
+        Ok(hasher.finalize().into())
     }
 
     /// Clean up old WAL files
